@@ -26,7 +26,8 @@ PROP_MODULES = ["GPVerif.Props.C03"]
 BUILD_TARGETS = ["GPVerif.Props.C03", "GPVerif.Gen.CacheTable"]
 RULE = ("operation histories over {predict x 6 exact-path settings cells, predict x 2 accuracy-degrading cells (truncated Lanczos root / "
         "2-iteration CG; own output not compared, every later exact-path call that does not legitimately read the degraded entry is), prior-mode call, train(), eval(), optimiser step "
-        "(training mode only), set_train_data, load_state_dict, get_fantasy_model, backward through a non-detached prediction} "
+        "(training mode only), set_train_data (inputs+targets / targets only / inputs only), load_state_dict (full / old-format dict "
+        "without updated_strategy / partial strict=False), get_fantasy_model, backward through a non-detached prediction} "
         "on 5 model kinds; quick: windows of a de Bruijn sequence (every ordered triple of op kinds occurs, per kind) + all "
         "histories to length 5 on the Lean model; thorough: all histories of length <= 4 over the 9 op kinds + sampled long ones; "
         "distinct = (kind, op tokens); non-trivial = at least one compared call was answered with a cache entry created by an "
@@ -45,7 +46,8 @@ ASSUMPTIONS = ["nn.Module.train(mode) / load_state_dict visit every submodule an
 
 GEN = os.path.join(C.LEAN_DIR, "GPVerif", "Gen", "CacheTable.lean")
 KINDS = ["exact", "kiss", "sgpr", "svgp", "usvgp"]
-CELLS = ["default", "fast_pred_var", "eager_kernels", "cg", "no_detach", "skip_var", "degraded_root", "degraded_cg"]
+CELLS = ["default", "fast_pred_var", "eager_kernels", "cg", "no_detach", "skip_var", "degraded_root", "degraded_cg",
+         "lazy_joint", "trace_mode"]
 TAINT = {"Q1": 6, "Q2": 7}   # accuracy-degrading predict ops: own output not compared
 OPKINDS = ["P", "R", "T", "E", "S", "D", "L", "F", "B"]
 OPNAMES = {"P": "predict", "Q": "predict", "R": "prior_predict", "T": "train", "E": "eval", "S": "step", "D": "set_train_data",
@@ -98,6 +100,10 @@ def cell_ctx(c):
         st.enter_context(S.cg_tolerance(1e-10))
         st.enter_context(S.eval_cg_tolerance(1e-10))
         st.enter_context(S.max_cg_iterations(30))
+    elif c == 8:    # the joint covariance is sliced lazily instead of row-evaluated
+        st.enter_context(S.max_eager_kernel_size(0))
+    elif c == 9:    # generic kernel path / dense assembly in the variational strategy
+        st.enter_context(S.trace_mode(True))
     elif c == 7:    # Q2: CG stopped after two iterations at tolerance 1
         st.enter_context(S.max_cholesky_size(0))
         st.enter_context(S.cg_tolerance(1.0))
@@ -173,6 +179,8 @@ def new_params(sd, g):
             out[k] = torch.tril(u(-0.2, 0.2, v.shape), -1) + torch.diag(u(0.5, 0.9, (v.size(-1),)))
         elif k.endswith("variational_params_initialized"):
             out[k] = torch.tensor(1)
+        elif k.endswith("updated_strategy"):
+            out[k] = torch.tensor(True)     # a current-format file (the old-format variant deletes the key)
         else:
             out[k] = v.clone()
     return out
@@ -182,12 +190,26 @@ def parse_ops(tokens):
     """'P3' -> ('P', 3); other tokens -> (tok,)"""
     out = []
     for t in tokens:
-        out.append((t[0], int(t[1])) if t[0] in "PQ" else (t[0],))
+        if t[0] in "PQ":
+            out.append((t[0], int(t[1])))
+        elif t[0] in "DL":
+            out.append((t[0], int(t[1]) if len(t) > 1 else 0))
+        else:
+            out.append((t[0],))
     return out
 
 
 def tok(op):
-    return f"{op[0]}{op[1]}" if op[0] in "PQ" else op[0]
+    """the token the Lean driver understands"""
+    if op[0] in "PQ":
+        return f"{op[0]}{op[1]}"
+    if op[0] == "D":
+        return ("D", "Dt", "Di")[op[1]]
+    return op[0]
+
+
+D_VARIANTS = ["D", "D1", "D2"]      # set_train_data(inputs, targets) / (targets=…) only / (inputs=…) only
+L_VARIANTS = ["L", "L1", "L2"]      # load_state_dict: full / old-format dict (no `updated_strategy`) / partial, strict=False
 
 
 class World:
@@ -206,10 +228,13 @@ class World:
         self.exact = kind in ("exact", "kiss", "sgpr")
         self.sd_keys = sorted(self.m.state_dict().keys())
 
-    def new_data(self):
+    def new_data(self, inputs=True, targets=True):
         import torch
-        self.x = (torch.rand(self.n, 1, generator=self.g) * 0.9 + 0.05).sort(0)[0]
-        self.y = torch.sin(5 * self.x.squeeze(-1)) + 0.2 * torch.randn(self.n, generator=self.g)
+        if inputs:
+            self.x = (torch.rand(self.n, 1, generator=self.g) * 0.9 + 0.05).sort(0)[0]
+        if targets:
+            self.y = torch.sin(5 * self.x.squeeze(-1) + float(torch.rand((), generator=self.g)) * 3) \
+                + 0.2 * torch.randn(self.n, generator=self.g)
 
     # -------- observables
     def keys(self):
@@ -253,9 +278,21 @@ class World:
         if prior and self.exact:
             with S.prior_mode(True):
                 o = m(x)
-                return o.mean.detach().clone(), o.covariance_matrix.detach().clone()
+                return self._take(o)
         o = m(x, prior=True) if prior else m(x)
-        return o.mean.detach().clone(), o.covariance_matrix.detach().clone()
+        return self._take(o)
+
+    @staticmethod
+    def _take(o):
+        """copy the answer, then scribble over the returned tensors in place (a caller may; no cache may alias them)"""
+        mean, cov = o.mean, o.covariance_matrix
+        res = mean.detach().clone(), cov.detach().clone()
+        for t, a, b in ((mean, -3.0, 7.0), (cov, 0.0, 5.0)):
+            try:
+                t.detach().mul_(a).add_(b)
+            except RuntimeError:
+                pass      # an expanded view (e.g. the constant prior mean): cannot be written in place
+        return res
 
     def fresh(self, cell, prior, training):
         """a freshly constructed model with the same state_dict, data (the harness' record), mode, settings"""
@@ -304,16 +341,41 @@ class World:
                 if not self.exact:
                     r["status"] = "na"
                     return r
-                self.new_data()
-                m.set_train_data(self.x, self.y, strict=True)
+                v = op[1] if len(op) > 1 else 0
+                self.new_data(inputs=v != 1, targets=v != 2)
+                if v == 0:
+                    m.set_train_data(self.x, self.y, strict=True)
+                elif v == 1:
+                    m.set_train_data(targets=self.y, strict=True)
+                else:
+                    m.set_train_data(inputs=self.x, strict=True)
             elif k == "L":
-                m.load_state_dict(new_params(m.state_dict(), self.g))
+                v = op[1] if len(op) > 1 else 0
+                sd = new_params(m.state_dict(), self.g)
+                flag = "variational_strategy.updated_strategy"
+                if v == 1 and flag in sd:
+                    # a file written before the whitened VariationalStrategy: no flag; the variational parameters in
+                    # it are un-whitened and are re-whitened by the next call
+                    del sd[flag]
+                    r["token"] = "Lo"
+                    m.load_state_dict(sd)
+                elif v == 2:
+                    keep = [k_ for k_ in sd if k_ == flag or float(torch.rand((), generator=self.g)) < 0.5]
+                    if not [k_ for k_ in keep if k_ != flag]:
+                        keep.append(sorted(sd)[0])
+                    m.load_state_dict({k_: sd[k_] for k_ in keep}, strict=False)
+                else:
+                    m.load_state_dict(sd)
             elif k == "F":
                 fx = torch.rand(2, 1, generator=self.g)
                 fy = torch.randn(2, generator=self.g)
                 try:
-                    m.get_fantasy_model(fx, fy)
+                    fm = m.get_fantasy_model(fx, fy)
                     r["token"] = "Fo"
+                    # use and then re-parameterise the returned model: nothing of it may be shared with the source
+                    self._take(fm(self.xt))
+                    fm.train()
+                    fm.load_state_dict(new_params(fm.state_dict(), self.g))
                 except Exception as e:  # classify where it was raised
                     frames = traceback.extract_tb(e.__traceback__)
                     in_copy = any(os.path.basename(f.filename) == "copy.py" for f in frames)
@@ -422,8 +484,8 @@ def run_history(kind, tokens, seed, compare_all=False):
                 root_degraded = root_degraded or ps_after == "DefaultPredictionStrategy"
             if "mean_cache" in created and r["cell"] == 7 and is_taint:
                 degraded.add("mean_cache")
-        if r["status"] not in ("ok", "excluded", "na"):
-            abnormal = True
+        if r["status"] not in ("ok", "excluded", "na") or r["token"] == "Lo":
+            abnormal = True     # (an old-format load leaves no cache but is not the freshly constructed state)
         if uses_cg and r["status"] == "ok" and not was_training:
             tainted = True
         if w.cache_empty():
@@ -512,12 +574,14 @@ def with_cells(kinds_seq, rng, counter):
         if k == "P":
             out.append(ALL_PREDICTS[counter[0] % len(ALL_PREDICTS)])
             counter[0] += 1 + (rng.random() < 0.3)
+        elif k in "DL":
+            out.append((D_VARIANTS if k == "D" else L_VARIANTS)[rng.randrange(3)])
         else:
             out.append(k)
     return out
 
 
-ALL_PREDICTS = ["P0", "P1", "Q1", "P2", "P3", "Q2", "P4", "P5"]
+ALL_PREDICTS = ["P0", "P1", "Q1", "P2", "P3", "Q2", "P4", "P5", "P8", "P9"]
 
 
 def taint_variant(body, rng):
@@ -606,6 +670,10 @@ def pattern(tokens):
             name += f"[{CELLS[int(t[1])]}]"
         if t[0] == "Q":
             name += f"[{CELLS[TAINT[t]]}]"
+        if t in ("D1", "D2"):
+            name += "[targets]" if t == "D1" else "[inputs]"
+        if t in ("L1", "L2"):
+            name += "[old_format]" if t == "L1" else "[partial]"
         out.append(name)
     return ">".join(out)
 
@@ -642,6 +710,11 @@ def shrink(kind, tokens, seed, idx, training_div, budget=60):
     for i, t in enumerate(cur):
         if (t[0] in "PQRB") and t != "P0" and tries < budget + 30:
             cand = cur[:i] + ["P0"] + cur[i + 1:]
+            tries += 1
+            if diverges(cand):
+                cur = cand
+        elif t in ("D1", "D2", "L1", "L2") and tries < budget + 30:
+            cand = cur[:i] + [t[0]] + cur[i + 1:]
             tries += 1
             if diverges(cand):
                 cur = cand
@@ -775,21 +848,21 @@ def collect_exhaustive(ctx, p, depth_ops, depth_full):
         return
     total = 0
     for n, l in enumerate(lines):
-        k, what = KINDS[n // 2], (f"9 op kinds, length <= {depth_ops}" if n % 2 == 0 else f"15 symbols, length <= {depth_full}")
+        k, what = KINDS[n // 2], (f"9 op kinds, length <= {depth_ops}" if n % 2 == 0 else f"22 symbols, length <= {depth_full}")
         f = dict(x.split("=", 1) for x in l.split(";"))
         total += int(f["nodes"])
         ctx.count("lean_model_states_checked", int(f["nodes"]))
         ctx.count("lean_model_calls_checked", int(f["answers"]))
         if int(f["bad"]) > 0:
             ctx.broke("model", f"lean-model-invariant:{k}", f"{what}: {f['bad']} bad states/answers; first: {f['first']}")
-    ctx.notes["lean_model_exhaustive"] = {"depth_9_ops": depth_ops, "depth_15_symbols": depth_full, "states": total}
+    ctx.notes["lean_model_exhaustive"] = {"depth_9_ops": depth_ops, "depth_22_symbols": depth_full, "states": total}
 
 
 def correspondence(ctx):
     sys.path.insert(0, os.path.join(C.VERIF, "harness"))
     t0 = time.time()
     quick = ctx.quick
-    proc = model_exhaustive(ctx, 5, 3 if quick else 5) if "table" in _state else None
+    proc = model_exhaustive(ctx, 5 if quick else 6, 3 if quick else 4) if "table" in _state else None
     rng = ctx.rng("histories")
     jobs = []
     hists = covering_histories(rng)
@@ -809,7 +882,7 @@ def correspondence(ctx):
     ctx.notes["real_side_wall_s"] = round(time.time() - t0, 1)
     check_results(ctx, jobs, results, "histories")
     if proc is not None:
-        collect_exhaustive(ctx, proc, 5, 3 if quick else 5)
+        collect_exhaustive(ctx, proc, 5 if quick else 6, 3 if quick else 4)
 
 
 # ------------------------------------------------------------------------------------------ search / replay
@@ -828,8 +901,14 @@ def search(ctx, broken):
                 continue  # no cache is ever filled before the probes
             toks = ["E"]
             for i, k in enumerate(ks):
-                toks.append(focus["P"][i % 4] if k == "P" else k)
+                toks.append(focus["P"][i % 4] if k == "P" else (D_VARIANTS[i] if k == "D" else (L_VARIANTS[i] if k == "L" else k)))
             jobs.append((kind, toks + probes(toks), rng.getrandbits(20)))
+    # every argument pattern of set_train_data / kind of state dict, between two eval-mode calls and before the first
+    for kind in KINDS:
+        for v in D_VARIANTS + L_VARIANTS:
+            for pre in (["E", "P0"], ["E", "P1"], ["E"], ["E", "P0", "B"], ["P0", "E"]):
+                for post in (["P0"], ["P1"], ["R", "P0"], ["P0", "P0"]):
+                    jobs.append((kind, pre + [v] + post + ["P1", "P0"], rng.getrandbits(20)))
     # caches filled under accuracy-degrading settings must stay invisible to exact-path calls
     for kind in KINDS:
         for q in ("Q1", "Q2"):
